@@ -218,9 +218,11 @@ def shape_lens(symlift, tier, quick_max, thorough_max=1024):
     reps, bad = shape_reps(symlift)
     if reps is None:
         reps = STATIC_SHAPE_REPS
-    out = [n for n in reps if n <= quick_max and max_prime_factor(n) <= 131]
+    # quick: only recipes whose Rader/Bluestein stages are small (prime factors <= 47): a stage over a prime
+    # of 59 and more takes minutes per query and, sixteen at a time, ran into the 300 s cap (measured)
+    out = [n for n in reps if n <= quick_max and max_prime_factor(n) <= 47]
     if tier == "thorough":
-        out += [n for n in reps if quick_max < n <= thorough_max and max_prime_factor(n) <= 131]
+        out += [n for n in reps if n <= thorough_max and max_prime_factor(n) <= 131]
     # lengths whose designed recipe does not even have the requested length go in regardless of size
     out += [n for n, _ in bad[:6] if n <= 4096]
     return sorted(set(out)), bad
@@ -255,7 +257,7 @@ def check_c01(pid, tier, seed, only):
     specs = _filter(specs, only)
     s = e1.run(specs, cost=e1_cost)
     res.add_e1("planned FFT == unnormalised DFT, four entry points, symbolic scratch/output contents, scratch of exactly the advertised length",
-               e1, s, {"lengths": f"{len(ns)} lengths, max {max(ns)}", "shape_representatives": f"{len(reps)} lengths: the smallest n of every structurally distinct recipe the current tree's scalar planner designs for n <= 1024 (quick: n <= 300; largest prime factor <= 131)",
+               e1, s, {"lengths": f"{len(ns)} lengths, max {max(ns)}", "shape_representatives": f"{len(reps)} lengths: the smallest n of every structurally distinct recipe the current tree's scalar planner designs for n <= 1024 (quick: n <= 300 and largest prime factor <= 47; thorough: n <= 600 and largest prime factor <= 131)",
                        "recipes_with_wrong_length_found_by_the_plan_report_sweep_(native)": bad[:10], "directions": 2, "entry_points": 4, "planners": "FftPlanner::<Sym> (falls through the AVX/SSE TypeId gates to the scalar planner), FftPlannerScalar::<Sym>",
                        "per_query_cap_s": e1.cap, "M_max_bits": e1.max_m_bits})
     return res
@@ -464,7 +466,7 @@ QUICK_SSE = {
            + hs_(["sse_f32_bf7"], ["ps_mem_k1_for"]) + hs_(["sse_f32_bf9"], ["oop_mem_k1_for"]),
     "C07": hs_(["sse_f32_bf2"], ["ps_iso_k3", "oop_iso_k3", "imm_iso_k3"]) + hs_(["sse_f32_bf4"], ["ps_iso_k2"]) + hs_(["sse_f64_bf2"], ["oop_iso_k3"]),
     "C15": hs_(["sse_f32_bf2", "sse_f32_bf4"], ["imm_mem_k3_for"]) + hs_(["sse_f64_bf4"], ["imm_mem_k2_for"]) + hs_(["sse_f32_bf2"], ["imm_iso_k3"]) + hs_(["sse_f32_bf3"], ["imm_ill"]),
-    "C09": hs_(["sse_f32_bf2"], ["ps_ill", "oop_ill", "imm_ill"]) + hs_(["sse_f64_bf4"], ["oop_ill"]),
+    "C09": hs_(["sse_f32_bf2"], ["oop_ill", "imm_ill"]) + hs_(["sse_f64_bf4"], ["oop_ill"]) + hs_(["sse_f32_bf3"], ["imm_ill"]),
 }
 SSE_TITLE = "SSE kernels (f32/f64 hand-written and prime butterflies, via the verif-hooks re-export): exact-size caller buffers, every vector load/store in bounds incl. the two-chunks-at-a-time path and its odd tail; 2-safety non-interference between chunks (same call twice with independent arbitrary contents of the other chunks: bit-identical outputs); immutable input bit-identical to its snapshot; ill-shaped calls panic on every path"
 SSE_BOUNDS = {"kernels": "SseF32/F64Butterfly{1,2,3,4,5,6,8,9,10,12,15,16,24,32} and prime butterflies {7,...,31}", "chunk_counts": "1..3 (n <= 16), 1..2 above", "data": "concrete (memory-safety harnesses) / symbolic finite floats |v| <= 1024 for the other chunks (isolation harnesses)", "stubs": "_mm_{add,sub,mul,addsub}_{ps,pd} replaced by lane-wise scalar IEEE models (Kani 0.68's simd overflow check fails on every float vector and assumes the rest away)"}
